@@ -254,9 +254,14 @@ static void tsimpr_group(Group & g, verif::Rng & rng, int ncases)
     double b = a + 2 * m * h;
     double ex = (c[0] * b + c[1] * b * b / 2 + c[2] * b * b * b / 3 + c[3] * b * b * b * b / 4)
                 - (c[0] * a + c[1] * a * a / 2 + c[2] * a * a * a / 3 + c[3] * a * a * a * a / 4);
+    // the requested step need not divide the interval: the routine settles on 2m panels (m even) for any step with
+    // (b-a)/h in [2m - 0.25, 2m + 1.75) and integrates with its own effective step - still exact for cubics
+    static const double deltas[] = {0.0, 0.0, 0.5, 1.0, 1.5, -0.2};
+    double hcall = (b - a) / (2.0 * m + deltas[i % 6]);
+    g.distinct.insert(fmt("tsimpr/delta%g", deltas[i % 6]));
     double r;
     try {
-      r = decay0_tsimpr(cubic, a, b, h, c);
+      r = decay0_tsimpr(cubic, a, b, hcall, c);
     } catch (std::exception & e) {
       g.n++;
       g.fail("tsimpr|throws-on-valid-step", fmt("a=%.17g b=%.17g h=%.17g m=%d: %s", a, b, h, m, e.what()));
